@@ -1,6 +1,6 @@
 (* Model of the pair selection of src/engine/engine_collision_driver.c:
    filterBitmask, filterBodyPair, canCollide, canCollide2, add_pair, SAPcmp / mj_SAP (sweep and
-   prune over a stable sort of the float casts of the interval ends), the body-pair part of
+   prune over the sort of the float casts of the interval ends, starts before ends on ties), the body-pair part of
    mj_broadphase and the explicit-pair / exclude merge of mj_collision.
    Definitions only; proofs are in Proof/BroadphaseProof.v. *)
 From Coq Require Import List ZArith Bool.
@@ -73,8 +73,11 @@ Definition axis_z (axis : Z) : Z := if axis =? 0 then 2 else if axis =? 1 then 2
 Definition tag : Type := (nat * bool)%type.
 Definition entry : Type := (K * tag)%type.
 
-(* SAPcmp: compares the values only *)
-Definition ecmp (a b : entry) : Z := kcmp (fst a) (fst b).
+(* SAPcmp: by value; on equal values interval starts (ismax = 0) sort before interval ends (ismax = 1) *)
+Definition b2z (b : bool) : Z := if b then 1 else 0.
+Definition ecmp (a b : entry) : Z :=
+  let c := kcmp (fst a) (fst b) in
+  if c <? 0 then -1 else if c =? 0 then b2z (snd (snd a)) - b2z (snd (snd b)) else 1.
 
 (* sortbuf[2i] = (rnd x_min[i], i, min); sortbuf[2i+1] = (rnd x_max[i], i, max) *)
 Fixpoint init_entries (axis : Z) (i : nat) (bs : list box) : list entry :=
